@@ -85,6 +85,9 @@ type CPU interface {
 	Mem() *Mem
 	Load(a wdc.Arch)
 	LoadRaw(r Raw)
+	// SoftLoadRaw sets the exported register fields only, the way a debugger would: whatever else the object
+	// remembers stays
+	SoftLoadRaw(r Raw)
 	Raw() Raw
 	Arch() wdc.Arch
 	// Step executes one Step(); a panic is caught and returned.
@@ -188,6 +191,15 @@ func (p *Primary) LoadRaw(r Raw) {
 	onwdm, onpc := c.OnWDM, c.OnPC
 	*c = cpu65c816.CPU{Bus: p.Bus}
 	c.OnWDM, c.OnPC = onwdm, onpc
+	c.RA, c.RX, c.RY = r.RA, r.RX, r.RY
+	c.RAh, c.RAl, c.RXl, c.RYl = r.RAh, r.RAl, r.RXl, r.RYl
+	c.PC, c.SP, c.RD, c.RDBR, c.RK = r.PC, r.SP, r.RD, r.RDBR, r.RK
+	c.N, c.V, c.M, c.X, c.D, c.I, c.Z, c.C = r.N, r.V, r.M, r.X, r.D, r.I, r.Z, r.C
+	c.B, c.E, c.Interrupt, c.Stopped, c.WDM = r.B, r.E, r.Interrupt, r.Stopped, r.WDM
+	c.PPC, c.PRK, c.Cycles, c.AllCycles = r.PPC, r.PRK, r.Cycles, r.AllCycles
+}
+func (p *Primary) SoftLoadRaw(r Raw) {
+	c := p.C
 	c.RA, c.RX, c.RY = r.RA, r.RX, r.RY
 	c.RAh, c.RAl, c.RXl, c.RYl = r.RAh, r.RAl, r.RXl, r.RYl
 	c.PC, c.SP, c.RD, c.RDBR, c.RK = r.PC, r.SP, r.RD, r.RDBR, r.RK
@@ -305,6 +317,7 @@ func (p *Alt) LoadRaw(r Raw) {
 	c.PPC, c.PRK, c.Cycles, c.AllCycles = r.PPC, r.PRK, r.Cycles, r.AllCycles
 	c.Bus.M = 0
 }
+func (p *Alt) SoftLoadRaw(r Raw) { p.LoadRaw(r) }
 func (p *Alt) Raw() Raw {
 	c := p.C
 	return Raw{RA: c.RA, RX: c.RX, RY: c.RY, RAh: c.RAh, RAl: c.RAl, RXl: c.RXl, RYl: c.RYl,
